@@ -254,8 +254,9 @@ package apd
 //@   requires integ != nil ==> writable(integ)
 //@   requires frac != nil ==> writable(frac)
 //@   requires integ == nil || integ != frac
-//@   requires val(d.Coeff) >= 0
+//@   requires inv(d)
 //@   assigns integ, frac
+//@   ensures [inv] (integ != nil ==> inv(integ)) && (frac != nil ==> inv(frac))
 //@   ensures [integ] integ != nil ==> (integ.Exponent == max(old(d.Exponent), 0) && integ.Negative == old(d.Negative) && val(integ.Coeff) == ite(old(d.Exponent) > 0, old(val(d.Coeff)), div(old(val(d.Coeff)), pow10(-old(d.Exponent)))))
 //@   ensures [frac] frac != nil ==> (frac.Exponent == min(old(d.Exponent), 0) && frac.Negative == old(d.Negative) && val(frac.Coeff) == ite(old(d.Exponent) > 0, 0, mod(old(val(d.Coeff)), pow10(-old(d.Exponent)))))
 //@   ensures [form] old(d.Form) == Finite ==> ((integ != nil ==> integ.Form == Finite) && (frac != nil ==> frac.Form == Finite))
@@ -799,9 +800,10 @@ package apd
 //@   loop 3 hint mul_lin(val(d.Coeff), tdiv(val(d.Coeff), 10), 10, pow10(nd))
 //@   loop 3 decreases val(d.Coeff)
 //@   ensures [ret] ret0 == d
+//@   ensures [inv] inv(d)
 //@   ensures [special] old(x.Form) != Finite ==> (eqdec(d, x) && ret1 == 0)
 //@   ensures [zero] old(iszero(x)) ==> (d.Form == Finite && val(d.Coeff) == 0 && d.Exponent == 0 && !d.Negative && ret1 == 0)
-//@   ensures [value] old(x.Form == Finite && val(x.Coeff) != 0 && inrange(x)) ==> (d.Form == Finite && d.Negative == old(x.Negative) && ret1 >= 0 && val(d.Coeff) * pow10(ret1) == old(val(x.Coeff)) && d.Exponent == old(x.Exponent) + ret1 && mod(val(d.Coeff), 10) != 0)
+//@   ensures [value] old(x.Form == Finite && val(x.Coeff) != 0 && -1000000000 <= x.Exponent && x.Exponent <= 1000000000) ==> (d.Form == Finite && d.Negative == old(x.Negative) && ret1 >= 0 && val(d.Coeff) * pow10(ret1) == old(val(x.Coeff)) && d.Exponent == old(x.Exponent) + ret1 && mod(val(d.Coeff), 10) != 0)
 
 //@ func (*Decimal).cmpOrder
 //@   props C15
@@ -1274,3 +1276,31 @@ package apd
 //@   ensures [closed] closed(ret0)
 //@   ensures [nan] NaN1(x, d, ret0)
 //@   ensures [inf] Inf1(x, old(x.Negative), d, ret0)
+
+//@ func (*Context).Pow
+//@   props C03 C04 C05 C06 C08 C18
+//@   exported
+//@   requires writable(d) && inv(x) && inv(y)
+//@   assigns d
+//@   ensures [invkeep] old(inv(d)) ==> inv(d)
+//@   ensures [closed] closed(ret0)
+//@   ensures [nan] NaN2(x, y, d, ret0)
+//@   ensures [zerozero] old(!isnan(x) && !isnan(y) && iszero(x) && iszero(y)) ==> (d.Form == NaN && ret0 == InvalidOperation)
+//@   ensures [yzero] old(!isnan(x) && !isnan(y) && x.Form == Finite && !iszero(x) && iszero(y)) ==> (d.Form == Finite && val(d.Coeff) == 1 && d.Exponent == 0 && ret0 == 0)
+
+//@ define RCoef(c: *Context, neg: bool, C: int, E: int): int = ite(C == 0, 0, ite(E + nd10(C) - 1 < c.MinExponent, RND(c.Rounding, neg, C, SSH(c, E)), NCOEF(c, neg, C)))
+//@ define RExp(c: *Context, neg: bool, C: int, E: int): int = ite(C == 0, ite(E < etiny(c), etiny(c), ite(E > c.MaxExponent, c.MaxExponent, E)), ite(E + nd10(C) - 1 < c.MinExponent, max(E, etiny(c)), NEXP(c, neg, C, E)))
+
+//@ func (*Context).Reduce
+//@   props C01 C03 C04 C05 C06 C07 C08 C19
+//@   exported
+//@   reveal RoundedNS
+//@   requires writable(d) && inv(x)
+//@   assigns d
+//@   ensures [reduce] wfctx(c) && old(x.Form == Finite && inrange(x)) && !hassys(ret1) && d.Form == Finite ==> d.Negative == old(x.Negative) && ite(RCoef(c, old(x.Negative), old(val(x.Coeff)), old(x.Exponent)) == 0, val(d.Coeff) == 0 && d.Exponent == 0 && ret0 == 0, ret0 >= 0 && val(d.Coeff) * pow10(ret0) == RCoef(c, old(x.Negative), old(val(x.Coeff)), old(x.Exponent)) && d.Exponent == RExp(c, old(x.Negative), old(val(x.Coeff)), old(x.Exponent)) + ret0 && mod(val(d.Coeff), 10) != 0)
+//@   ensures [flags] wfctx(c) && old(x.Form == Finite && inrange(x)) && !hassys(ret1) ==> (d.Form == Finite && has(ret1, Inexact) ==> has(ret1, Rounded)) && only(ret1, Inexact | Rounded | Clamped | Subnormal | Underflow | Overflow)
+//@   ensures [invkeep] old(inv(d)) ==> inv(d)
+//@   ensures [closed] closed(ret1)
+//@   ensures [trap] ret2 != nil <==> trapped(c, ret1)
+//@   ensures [nan] NaN1(x, d, ret1)
+//@   ensures [inf] Inf1(x, old(x.Negative), d, ret1)
